@@ -628,10 +628,10 @@ func (c *checker) doLaw(k *kase, whole *result, spaceNo, gi int, recIdx []int, s
 	}
 }
 
-// wantSample spreads the verbatim samples of the evidence over the spaces: worker s samples the
-// space number s%7+1, one case in about a thousand of its own.
+// wantSample spreads the verbatim samples of the evidence over the spaces: each worker samples one
+// space (the driver keeps one sample of each of the first four workers), one case in 251 of its own.
 func (c *checker) wantSample(spaceNo int) bool {
-	return c.ctx.WantSample() && spaceNo == c.ctx.Shard%7+1 && (c.idx/int64(c.ctx.NShards))%251 == 17
+	return c.ctx.WantSample() && spaceNo == []int{3, 5, 4, 7, 1, 2, 6}[c.ctx.Shard%7] && (c.idx/int64(c.ctx.NShards))%251 == 17
 }
 
 // eachList enumerates all index lists of length minLen..maxLen over n symbols, shortest first.
@@ -910,29 +910,24 @@ func run(ctx *bex.Ctx) {
 	ctx.SpaceDone(fmt.Sprintf("12 x-axis grids x %d y-axis grids ((0,1,0),(-1.5,0.5,1),(0,0.5,2),(10,2,3); thorough: plus the 12 x-axis grids) x all lists of <= %d records over {(under,under),(start,start),(under,overflow edge),(2^70,start)} x weight {1,-2} x all splittings as in 1-d", len(fewY), b.lawLen2))
 }
 
-// law runs the splittings of one list that belong to this shard; the library's binning of the whole
-// list is evaluated once (and not counted as a case: it is the right-hand side of the law).
+// law runs all splittings of one list (the case index of the additivity spaces counts lists, so that
+// the splittings of a list stay in one worker); the library's binning of the whole list is evaluated
+// once and not counted as an evaluation: it is the right-hand side of the law.
 func (c *checker) law(k *kase, sp [][][]int, spaceNo, gi int, recIdx []int) {
+	if !c.next() {
+		return
+	}
+	got, err := c.h.run(c.h.program(k.Dim, k.AX, k.AY, false), listVal(k.Dim, k.Recs))
 	var whole *result
+	if err == nil {
+		whole, err = extract(k.Dim, got)
+	}
+	if err != nil {
+		c.ctx.Eval()
+		c.ctx.Violate("evaluation failed: no element is assigned to a bin", k.repro(), "a binning result", "error: "+err.Error(), "")
+		return
+	}
 	for si, parts := range sp {
-		if !c.next() {
-			if c.stop {
-				return
-			}
-			continue
-		}
-		if whole == nil {
-			got, err := c.h.run(c.h.program(k.Dim, k.AX, k.AY, false), listVal(k.Dim, k.Recs))
-			if err == nil {
-				whole, err = extract(k.Dim, got)
-			}
-			if err != nil {
-				kk := *k
-				c.ctx.Eval()
-				c.ctx.Violate("evaluation failed: no element is assigned to a bin", kk.repro(), "a binning result", "error: "+err.Error(), "")
-				return
-			}
-		}
 		kk := *k
 		kk.Parts = parts
 		c.doLaw(&kk, whole, spaceNo, gi, recIdx, si)
